@@ -219,6 +219,29 @@ def run_case(ctx, name, params):
             ctx.violation("leaders/exception", "update_global_best raised %r" % e, None)
             return
         judge_leaders(ctx, a, "direct")
+        # further generations on the same archive ("all sequences of generations"): the population size option may be changed
+        # between them (a re-used algorithm object), and a generation may consist of particles that are all worse than every
+        # leader (a stalled swarm: nothing enters the archive) -- the bound holds after every generation, against the size
+        # declared at that moment
+        mm = len(swarm[0].costs)
+        for _gen in range(r.randint(0, 4)):
+            if r.random() < 0.5:
+                a.options["max_population_size"] = r.randint(1, 30)
+                ctx.count("leader_generations_after_population_size_change")
+            nxt = [particle(r, bxs, mm, False) for _ in range(r.randint(1, 20))]
+            if r.random() < 0.5 and len(a.leaders) > 0:
+                worst = [max(l.costs_signed[j] for l in a.leaders) for j in range(mm)]
+                for q in nxt:
+                    q.costs = [w + r.choice([0.5, 1.0, 3.0]) for w in worst]
+                    q.costs_signed = list(q.costs) + [max(l.costs_signed[-1] for l in a.leaders)]
+                ctx.count("leader_generations_with_no_entrant")
+            try:
+                a.update_global_best(nxt)
+            except Exception as e:
+                ctx.violation("leaders/exception", "update_global_best raised %r" % e, None)
+                return
+            judge_leaders(ctx, a, "direct_sequence")
+        a.options["max_population_size"] = max(N, 2)
         if r.random() < 0.5:
             # the declared box is narrowed / moved in place (refinement run) and the SAME algorithm object goes on: clamp and
             # bound reset must follow the box that is declared now
